@@ -230,10 +230,11 @@ def digest(obj):
 
 
 class StepRec(object):
-    __slots__ = ("t", "working", "ph", "moves", "sorts", "order")
+    __slots__ = ("t", "working", "ph", "moves", "sorts", "order", "synth_updated")
 
     def __init__(self, t):
         self.t = t
+        self.synth_updated = False
         self.working = None
         self.ph = {}
         self.moves = []
@@ -283,6 +284,18 @@ class Recorder(object):
             self.pre_moves = []
             self.steps.append(self.cur)
         cur = self.cur
+        if name != "updated" and (cur is None or name in cur.ph):
+            # a step went on without the update phase having been observed (the 'updated' instant is signalled by the PERT
+            # update at the end of the update phase; a tree that skips that phase must not make its steps invisible):
+            # open the step record here; its 'updated' snapshot is the first one this step offers
+            cur = self.cur = StepRec(self.project.time)
+            cur.moves = self.pre_moves
+            self.pre_moves = []
+            cur.synth_updated = True
+            self.steps.append(cur)
+            self.phase_counts["updated_not_observed"] = self.phase_counts.get("updated_not_observed", 0) + 1
+            if self.want_snap and (self.snap_phases is None or "updated" in self.snap_phases):
+                cur.ph["updated"] = snapshot(self.ix)
         if cur is None:  # call pattern not recognised: degrade, never alarm
             return
         if working is not None:
